@@ -244,6 +244,10 @@ func init() {
 		return m.Aux["part"] == "objectfn" && m.Aux["fn"] == "getOwnPropertyNames" && m.Expected == "TypeError" &&
 			m.Observed == "ok:{Array|ext=1|length=d:0:100}"
 	})
+	engine.RegisterSignature("c07-property-map-late-filter", func(m *engine.Mismatch) bool {
+		v, ok := m.Aux["alt:late-filter"]
+		return ok && m.Aux["tag"] == "descshape" && m.Observed == v && m.Observed != m.Expected
+	})
 	engine.RegisterSignature("c07-descriptor-value-read-last", func(m *engine.Mismatch) bool {
 		v, ok := m.Aux["alt:value-last"]
 		return ok && m.Aux["tag"] == "descshape" && m.Observed == v && m.Observed != m.Expected
